@@ -6,6 +6,8 @@
 (*     type A = { a: string; b?: B; self?: A }        (uses B, recursive)  *)
 (*     const k = { v: 1 } as const                    (a value)            *)
 (*     type T = { a: A; b: B; k: typeof k; g: G<B> }  (the root, in entry) *)
+(*       (+ e: E.P; f: E2.P; g3: E3.P; ev: typeof E.Q; and the enums E, E2  *)
+(*        as whole types in optional properties ee / eo / ff / fo)          *)
 (*     type G<X> = { x: X }                           (generic)            *)
 (*     enum E { P = "p", Q = "q" }      used only as the member type E.P   *)
 (*     enum E2 { P = "fp", R = "r" }    used only as E2.P; in a file other *)
@@ -22,7 +24,7 @@ EXTENDS Naturals, Sequences, FiniteSets, TLC
 CONSTANTS MaxSteps
 
 Decls == {"A", "B", "k", "G", "E", "E2", "E3"}
-Files == {"entry", "m1", "m2", "m3", "m4"}     \* rendered as entry.ts, a/b/t.ts, a/c/t.ts, c/t.ts, a_b/t.ts (nested directories,
+Files == {"entry", "m1", "m2", "m3", "m4"}     \* rendered as entry.ts, a/b/t.ts, a/3c/t.ts, 3c/t.ts, a_b/t.ts (nested directories,
                                                 \* one base name; a/b/t.ts and a_b/t.ts sanitize to the same identifier part)
 Sites == {<<"T", "A">>, <<"T", "B">>, <<"T", "k">>, <<"T", "G">>, <<"A", "B">>, <<"T", "E">>, <<"T", "E2">>, <<"T", "E3">>}     \* <<user, used>>
 ExportStyles == {"inline", "list", "renamed", "default", "defaultExpr"}   \* defaultExpr (k only): export default { v: kin } as const
